@@ -41,7 +41,7 @@ def run(chk, repo: Repo):
     chk.rule("C17-R1", "exactData = model(exactSolution); data from that exact data / from the data distribution on the same model; likelihood and prior passed on are built from them", floor=6)
     chk.rule("C17-R2", "noise level: std for the draw, std**2 for the covariance; noise-type branches use noise_std consistently", floor=5)
     chk.rule("C17-R3", "unit-vector assembly puts F(e_i) in column i", floor=1)
-    chk.rule("C17-R4", "noise-type and boundary-condition chains refuse unknown values", floor=4)
+    chk.rule("C17-R4", "noise-type and boundary-condition chains refuse unknown values", floor=3)
     chk.rule("C17-R5", "get_components returns (self.model, self.data, info filled from self)", floor=1)
     chk.rule("C17-R6", "PSF sample grids are centred on the kernel origin: for both parities of the size N the grid is N consecutive integers with "
                        "its zero at index N // 2 (the origin of scipy's convolve1d and of the padded 'valid' convolution); the defocus support is the closed disc (mask d2 > R**2)", floor=7)
@@ -58,7 +58,20 @@ def run(chk, repo: Repo):
     for cname in CLASSES:
         ci = repo.cls(f"{TP}:{cname}")
         init = repo.method(ci, "__init__")[1]
-        _provenance(chk, repo, ci, init)
+        def _cands(_ci=ci, _init=init):
+            yield _init
+            # the data distribution built by a module-level helper shared by sibling problems: that helper (one whose every result is a distribution
+            # constructor call) is inlined again, all other module functions stay calls
+            from .common import canon_keep
+            mod = repo.mod(TP)
+            builders = {nm for nm, f_ in mod.functions.items()
+                        if [r_ for r_ in ast.walk(f_) if isinstance(r_, ast.Return) and r_.value is not None]
+                        and all(isinstance(r_.value, ast.Call) and (call_name(r_.value) or "").startswith("cuqi.distribution.")
+                                for r_ in ast.walk(f_) if isinstance(r_, ast.Return) and r_.value is not None)}
+            if builders:
+                yield canon_keep(repo, _ci, _init, set(mod.functions) - builders)
+        from .common import best_of
+        best_of(chk, _cands(), lambda t, v, _ci=ci: _provenance(t, repo, _ci, v))
     _r3(chk, repo)
     _r4(chk, repo)
     _r4_modes(chk, repo)
@@ -100,14 +113,33 @@ def _provenance(chk, repo, ci, init):
             and X == "None" and Y == "None"
         chk.add("C17-R1", inst, ok, site(repo, init), "likelihood = Gaussian(model(prior), noise_std**2).to_likelihood(data); passed with the prior",
                 "WangCubic wiring of model, data distribution, likelihood and prior changed", init)
-        jac = [n for n in ast.walk(init) if isinstance(n, ast.FunctionDef) and n.name in ("forward", "jacobian")]
+        # the forward map and its Jacobian as handed to the Model constructor: nested functions of __init__, or (static) methods of the class
         from .common import closed_outcomes, expected_text
         want = {"forward": lambda x: f"10*{x}[1]-10*{x}[0]**3+5*{x}[0]**2+6*{x}[0]", "jacobian": lambda x: f"np.array([[-30*{x}[0]**2+10*{x}[0]+6,10]])"}
+        mcall = [c for c in ast.walk(init) if isinstance(c, ast.Call) and (call_name(c) or "").endswith("Model")]
+        roles = {}
+        if len(mcall) == 1:
+            if mcall[0].args:
+                roles["forward"] = mcall[0].args[0]
+            for k_ in mcall[0].keywords:
+                if k_.arg in ("forward", "jacobian"):
+                    roles[k_.arg] = k_.value
+        jac = []
+        for role, e_ in roles.items():
+            d_ = None
+            if isinstance(e_, ast.Name):
+                d_ = next((n for n in ast.walk(init) if isinstance(n, ast.FunctionDef) and n.name == e_.id), None)
+            elif isinstance(e_, ast.Attribute) and path_of(e_.value) in ("self", ci.name, "type(self)") and ci.lookup(e_.attr) is not None:
+                d_ = ci.lookup(e_.attr)[1]
+            if d_ is not None:
+                jac.append((role, d_))
         ok = len(jac) == 2
-        for d_ in jac:
-            x_ = func_params(d_)[0] if func_params(d_) else "x"
+        for role, d_ in jac:
+            ps_ = func_params(d_)
+            is_static = any(unparse(dc) == "staticmethod" for dc in d_.decorator_list)
+            x_ = (ps_[0] if (is_static or d_ not in ci.methods.values()) else ps_[1]) if ps_ else "x"
             outs = closed_outcomes(repo, ci, d_)
-            ok = ok and outs == {("return", expected_text(want[d_.name](x_)))}
+            ok = ok and outs == {("return", expected_text(want[role](x_)))}
         chk.add("C17-R2", inst + "/cubic", ok, site(repo, init), "forward 10 x2 - 10 x1^3 + 5 x1^2 + 6 x1 with its Jacobian", "cubic model or its Jacobian changed", init)
         return
     # exact data = model applied to the exact solution
@@ -275,8 +307,8 @@ def _r4(chk, repo):
                         f"option dispatch on `{S}` ({lits}) does not refuse an unknown value: a value matching none of them reaches the end of the function", tests[0][0].ast)
             else:
                 chk.note(f"C17-R4 {where}: option dispatch on `{S}` {lits} {'refuses' if refuses else 'does not refuse'} other values")
-    if n < 4:
-        raise AnchorError(f"{n} noise-type/boundary dispatches found, 4 confirmed by hand")
+    if n < 3:       # 4 on the pinned tree; the two deconvolution problems may share one noise-type dispatch
+        raise AnchorError(f"{n} noise-type/boundary dispatches found, at least 3 expected (4 on the pinned tree)")
 
 
 def _r4_modes(chk, repo):
